@@ -234,5 +234,12 @@ def _lookback(E: Engine, rep: Report) -> None:
                 facs.setdefault(label, set()).update(_rise_coeffs(l.value))
     rep.check(facs.get("get_duration") == {2}, "GUARD", "_ChannelSchedule.get_duration|lookback=2*rise_time", "the backwards scan for a pending fall time stops only after 2*rise_time of idle time (the longest possible fall time)",
               f"the at-rest look-back threshold is {sorted(facs.get('get_duration', []))} x rise_time: a pulse whose fall time (up to 2*rise_time) is still pending would be missed behind short delays", E.where(gd))
+    # ... and the rise time is the one of the mode the channel is IN (in_eom_mode), not of what the channel could do
+    #     (supports_eom): outside EOM mode the fall time is bounded by 2 x the channel's own rise time
+    eom_sel = [t for l in S(E, gd).log if l.kind == "test" for t in sym.subterms(l.value) if t[0] == "ifexp" and (mentions(t[2], "eom_config") != mentions(t[3], "eom_config")) and mentions(t, "rise_time")]
+    for t in eom_sel[:1]:
+        c_ = t[1] if mentions(t[2], "eom_config") else sym.mk_not(t[1])
+        rep.check(mentions(c_, "in_eom_mode") and not mentions(c_, "supports_eom"), "GUARD", "_ChannelSchedule.get_duration|lookback-in-the-current-mode", "the EOM rise time bounds the look-back under in_eom_mode",
+                  f"the look-back of get_duration takes the EOM rise time under `{sh(c_, 80)}`: a channel that merely has an EOM but is in ordinary operation ramps down with its own (longer) rise time, so a pulse still falling behind two short delays is missed and a retarget / EOM buffer starts before it has ramped down", E.where(gd))
     rep.check(facs.get("_find_add_delay") == {2}, "GUARD", "_Schedule._find_add_delay|lookback=2*rise_time", "the conflict scan looks 2*rise_time behind non-pulse slots",
               f"the conflict scan threshold is {sorted(facs.get('_find_add_delay', []))} x rise_time", E.where(fad))
